@@ -281,16 +281,17 @@ func buildPlan(id string, pinned map[string]string, tier string) *Plan {
 		for _, c := range fftCfgs("/repo") {
 			p.Units = append(p.Units, Unit{Pkg: c.Pkg, Tags: "purego", Groups: []string{"kernels"}, Deps: []string{c.Field + ":vector", c.Field + ":field"}})
 			p.Units = append(p.Units, Unit{Pkg: c.Pkg, Tags: "", Groups: []string{"domain"}})
+			p.Units = append(p.Units, Unit{Pkg: c.Pkg, Tags: "purego", Groups: []string{"scaling"}, Deps: []string{c.Field + ":vector"}})
 		}
 		p.Units = append(p.Units, Unit{Pkg: "./internal/parallel", Tags: "", Groups: []string{"execute"}})
 		p.Trusted = []string{"ring layer over the field's Element (C01 contracts); Vector.Mul through its contract (C01, portable build); Element.Exp is an uninterpreted power at the ring layer",
 			"twseq(t, x, n) = t * x^n is axiomatised by its two defining equations (a total function by recursion on n)",
 			"parallel.Execute: runtime.NumCPU() >= 1 (assumed), go statements executed as calls at the point where the goroutine is started, the work function and the wait group opaque; Euclidean division by a variable enters through an isolated lemma instance (lemma euclid)",
-			"NewDomain: the option parser, NextPowerOfTwo, Generator and GeneratorFullMultiplicativeGroup are opaque calls captured at the call site; a pointer inside the parsed options is nil or a fresh object; preComputeTwiddles writes only the four table fields (assumed: goroutines)"}
+			"FFT / FFTInverse entry points: option execute-as-range (parallel.Execute(n, work) executed as work(0, n): the partition is the contract of Execute, the independence of the iterations of the closures is assumed); difFFT / ditFFT are opaque calls that overwrite the vector; the options are the arbitrary result of an opaque call (so every option combination is covered)", "NewDomain: the option parser, NextPowerOfTwo, Generator and GeneratorFullMultiplicativeGroup are opaque calls captured at the call site; a pointer inside the parsed options is nil or a fresh object; preComputeTwiddles writes only the four table fields (assumed: goroutines)"}
 		p.NotCovered = []string{"the statement of the property itself: that the composition of these kernels over log2(n) stages, with the documented bit-reversed ordering, the coset scaling, the goroutine split and every option, is the discrete Fourier transform (Cooley-Tukey induction over a goroutine-split recursion) is NOT decided by these contracts",
-			"unrolled kernels kerDIFNP_32 / kerDITNP_256 / ..., AVX-512 kernels of the 31-bit fields, difFFT / ditFFT recursion, FFT / FFTInverse entry points (closures handed to parallel.Execute), BitReverse (cobra variants), the contents of the precomputed tables (preComputeTwiddles: goroutines, assumed frame), Domain serialisation: not under contract",
+			"unrolled kernels kerDIFNP_32 / kerDITNP_256 / ..., AVX-512 kernels of the 31-bit fields, difFFT / ditFFT recursion, the coset paths of FFT / FFTInverse that build the table on the fly or read it in bit-reversed order (frame only), BitReverse (cobra variants), the contents of the precomputed tables (preComputeTwiddles: goroutines, assumed frame), Domain serialisation: not under contract",
 			"default build: Vector.Mul is an assembly routine on amd64, so the kernels with a twiddle table are verified for the portable build only"}
-		p.Note = "Partial: the four radix-2 butterfly kernels of every FFT package (with and without a twiddle table, decimation in time and in frequency) perform exactly the butterfly a[i], a[i+m] <- a[i] + a[i+m], (a[i] - a[i+m]) t_i (resp. a[i] + t_i a[i+m], a[i] - t_i a[i+m]) on every pair of the requested range with t_0 = 1, t_i = twiddles[i] or at*w^(i-start), touch nothing else, and never index out of range under the stated size preconditions; precomputeExpTableChunk fills table[j] = w^power * w^j. A change inside a kernel that alters any output entry fails a named obligation. NewDomain (default build, 10 packages): the cardinality is the value of ecc.NextPowerOfTwo(m), the generator the value of Generator(m) (an error is a panic, not a result), the coset shift the option's shift when one is given and GeneratorFullMultiplicativeGroup() otherwise, the precompute flag the option's, and GeneratorInv, CardinalityInv, FrMultiplicativeGenInv are the inverses of Generator, Cardinality, FrMultiplicativeGen as stored in the returned domain. Domain.ReadFrom decodes a field only from a buffer that the read filled completely (io.Reader may return short reads: assumed contract) and returns nil only then. parallel.Execute (the splitter behind every parallel loop of the FFT and of the library): for every number of iterations up to 2^40 and every task count, the ranges handed to the goroutines are contiguous, start at 0 and end at the number of iterations - they partition the index range (the go statements are executed as calls: the contract is about what each goroutine is started with, not about interleavings)."
+		p.Note = "Partial: the four radix-2 butterfly kernels of every FFT package (with and without a twiddle table, decimation in time and in frequency) perform exactly the butterfly a[i], a[i+m] <- a[i] + a[i+m], (a[i] - a[i+m]) t_i (resp. a[i] + t_i a[i+m], a[i] - t_i a[i+m]) on every pair of the requested range with t_0 = 1, t_i = twiddles[i] or at*w^(i-start), touch nothing else, and never index out of range under the stated size preconditions; precomputeExpTableChunk fills table[j] = w^power * w^j. A change inside a kernel that alters any output entry fails a named obligation. NewDomain (default build, 10 packages): the cardinality is the value of ecc.NextPowerOfTwo(m), the generator the value of Generator(m) (an error is a panic, not a result), the coset shift the option's shift when one is given and GeneratorFullMultiplicativeGroup() otherwise, the precompute flag the option's, and GeneratorInv, CardinalityInv, FrMultiplicativeGenInv are the inverses of Generator, Cardinality, FrMultiplicativeGen as stored in the returned domain. Domain.ReadFrom decodes a field only from a buffer that the read filled completely (io.Reader may return short reads: assumed contract) and returns nil only then. parallel.Execute (the splitter behind every parallel loop of the FFT and of the library): for every number of iterations up to 2^40 and every task count, the ranges handed to the goroutines are contiguous, start at 0 and end at the number of iterations - they partition the index range (the go statements are executed as calls: the contract is about what each goroutine is started with, not about interleavings). Entry points FFT / FFTInverse of every FFT package, for every option combination: the transform that matches the decimation is called exactly once, with the generator (inverse generator) of the domain and its precomputed twiddles (inverse twiddles) when there are any; FFTInverse then scales every entry by 1/n (no coset) or by cosetTableInv[j]/n (coset, decimation in time, precomputed tables: both the vector fast path of the 31-bit fields and the parallel loop); FFT hands the transform the input itself (no coset) or the input scaled entry by entry by cosetTable[j] (coset, decimation in frequency, precomputed tables); nothing but the vector is written on any path."
 		return p
 	case "C11":
 		p := &Plan{ID: id}
